@@ -69,7 +69,9 @@ func ReadNode(br *bufio.Reader) (cid.Cid, []byte, error) {
 		return cid.Cid{}, nil, err
 	}
 
-	n, c, err := cid.CidFromReader(bytes.NewReader(data))
+	// data is already in memory: parse the CID from the bytes. cid.CidFromReader would allocate the
+	// digest length claimed by the CID (up to 32 MiB) before finding out that the bytes are not there.
+	n, c, err := cid.CidFromBytes(data)
 	if err != nil {
 		return cid.Cid{}, nil, err
 	}
